@@ -667,10 +667,11 @@ class EvalMixin(InterpBase):
             if kind in ("np", "re", "math", "os"):
                 from . import models
                 return models.call_library(self, kind, f.what[1], args, kwargs, fr)
-        if isinstance(f, Opaque) and f.what in ("dataclasses:fields", ("dataclasses", "fields")) and len(args) == 1 and isinstance(args[0], Obj) \
-                and args[0].cls is not None:
-            # dataclasses.fields(obj): the declared fields in definition order (only their .name is modelled)
-            return ListV([RecV("Field", {"name": n}) for (n, _d, _ann, _c) in self.index.dataclass_fields(args[0].cls)], kind="tuple")
+        if isinstance(f, Opaque) and f.what in ("dataclasses:fields", ("dataclasses", "fields")) and len(args) == 1 and \
+                ((isinstance(args[0], Obj) and args[0].cls is not None) or (isinstance(args[0], ClassRef) and args[0].info is not None)):
+            # dataclasses.fields(obj or class): the declared fields in definition order (only their .name is modelled)
+            ci = args[0].cls if isinstance(args[0], Obj) else args[0].info
+            return ListV([RecV("Field", {"name": n}) for (n, _d, _ann, _c) in self.index.dataclass_fields(ci)], kind="tuple")
         if isinstance(f, Opaque) and f.what in ("copy:copy", ("copy", "copy")) and len(args) == 1:
             v = args[0]
             if isinstance(v, ListV):
